@@ -42,9 +42,9 @@ def rand_names(rng, k, flavour=None):
             nm = bytes(rng.randrange(33, 127) for _ in range(rng.randint(1, 8)))
         elif flavour == "prefix":      # names that are prefixes of each other
             nm = (base * 24)[:rng.randint(0 if rng.random() < .2 else 1, 20)]
-        elif flavour == "common":      # long common prefix, differ late (but before 256)
+        elif flavour == "common":      # long common prefix, differ late (before byte 256)
             nm = base * 30 + bytes([rng.randrange(33, 127)]) + bytes(rng.randrange(33, 127) for _ in range(rng.randint(0, 3)))
-        elif flavour == "long":        # distinct inside the first 256 bytes, long tails
+        elif flavour == "long":        # long runs of one byte (around 256), long tails
             nm = bytes([rng.randrange(33, 127)]) * rng.randint(200, 256) + bytes(rng.randrange(33, 127) for _ in range(rng.randint(0, 40)))
         elif flavour == "high":        # bytes >= 0x80 (strncmp compares unsigned char)
             nm = bytes(rng.choice([1, 127, 128, 200, 255, 65, 97]) for _ in range(rng.randint(1, 4)))
@@ -127,12 +127,14 @@ def cmp_pair_case(rng, kind=None):
         if rng.random() < .5:  # same residue counts as far as possible, so that only the row count decides
             rows2 = [gapped(rng, seqs[i % k], max(1, max(len(s) for s in seqs)), "-") for i in range(k2)]
         return names, rows, rand_names(rng, k2), rows2, False
-    if kind == "late":     # names that agree in their first 256 bytes
+    if kind == "late":     # distinct names that agree in their first 256 bytes (uniquely named since the strcmp repair)
         stem = bytes([rng.randrange(33, 127)]) * 256
         nm = list(names)
         i, j = rng.sample(range(k), 2)
         nm[i] = stem + b"A"; nm[j] = stem + rng.choice([b"B", b"", b"AA"])
-        return nm, rows, list(nm), list(rows), False
+        perm = list(range(k)); rng.shuffle(perm)
+        t = insert_allgap(rng, rows) if rng.random() < .5 else [gapped(rng, s, len(rows[0]), GAPS) for s in seqs]
+        return nm, rows, [nm[q] for q in perm], [t[q] for q in perm], True
     # dupname
     nm = list(names)
     i, j = rng.sample(range(k), 2)
@@ -286,7 +288,7 @@ def main():
         return 0
     from lib import common as C
     cases = []
-    for kind in ["identical", "modgap", "perturbed", "unrelated", "narrow"]:
+    for kind in ["identical", "modgap", "perturbed", "unrelated", "narrow", "late"]:
         for _ in range(n):
             cases.append(cmp_pair_case(rng, kind))
     cases = [c for c in cases if len(set(c[0])) == len(c[0])]
